@@ -32,6 +32,7 @@ def streams(rng, tier):
         ("combos", G.combos("win")),
         ("shapes", G.shapes("win")),
         ("random", [G.random_call(rng, "win") for _ in range(700 if q else 5000)]),
+        ("history", G.with_history(rng, [G.random_call(rng, "win") for _ in range(250 if q else 2500)])),
         ("malformed", G.malformed("win")),
     ]
 
